@@ -4,6 +4,7 @@
 // operation sequences of every length over that pool.
 #include "../engine/seqmc.hpp"
 #include <frg/rbtree.hpp>
+#include <type_traits>
 #include <algorithm>
 #include <cmath>
 
@@ -20,6 +21,12 @@ struct Less {
 	bool operator()(const Node &a, const Node &b) const { return a.key < b.key; }
 };
 using Tree = frg::rbtree<Node, &Node::hook, Less>;
+// a comparator object that carries state (the direction): the tree has to use the object it was constructed with
+struct DirLess {
+	int descending = 0;
+	bool operator()(const Node &a, const Node &b) const { return descending ? b.key < a.key : a.key < b.key; }
+};
+using DTree = frg::rbtree<Node, &Node::hook, DirLess>;
 using OTree = frg::rbtree_order<Node, &Node::hook>;
 
 template<class T, bool Ordered>
@@ -42,7 +49,7 @@ struct RbHarness {
 
 	void reset() {
 		memset(&w, 0, sizeof w);
-		new(w.tree) T();
+		if constexpr(std::is_same_v<T, DTree>) new(w.tree) T(DirLess{1}); else new(w.tree) T();
 		for(int i = 0; i < n; i++) {
 			Node *p = new(&node(i)) Node();
 			p->key = keys[i];
@@ -83,7 +90,7 @@ struct RbHarness {
 			} else {
 				tree().insert(&node(id));
 				// equal keys go after existing equal keys
-				auto it = std::upper_bound(ref.begin(), ref.end(), id, [&](int a, int b) { return keys[a] < keys[b]; });
+				auto it = std::upper_bound(ref.begin(), ref.end(), id, [&](int a, int b) { return std::is_same_v<T, DTree> ? keys[b] < keys[a] : keys[a] < keys[b]; });
 				ref.insert(it, id);
 			}
 		} else {
@@ -222,6 +229,8 @@ static std::vector<Instance> mk(const std::string &tier) {
 	{ std::vector<int> a; for(int i = 0; i < D; i++) a.push_back((i * 5) % D); shapes.push_back(a); }
 	for(size_t s = 0; s < shapes.size(); s++)
 		v.push_back(group_instance<RbHarness<Tree, false>>("rb-distinct-N" + std::to_string(D) + "-" + std::to_string(s), D, {shapes[s]}));
+	// stateful comparator (descending), duplicates included
+	{ std::vector<std::vector<int>> part; for(size_t i = 0; i < all.size(); i += (th ? 9 : 27)) part.push_back(all[i]); v.push_back(group_instance<RbHarness<DTree, false>>("rb-stateful-comparator-N" + std::to_string(N), N, part)); }
 	int ON = th ? 8 : 7;
 	v.push_back(group_instance<RbHarness<OTree, true>>("rborder-N" + std::to_string(ON), ON, {std::vector<int>(ON, 0)}));
 	return v;
